@@ -67,7 +67,13 @@ def tuned_boundary_codes(ctx, rnd):
             found[out] = text[:pos]
         elif out + 1 in targets and out + 1 not in found:
             found[out + 1] = text[:pos] + b'!'       # one more literal (a lone last character cannot start a block)
-    return [('tuned-%s@%d' % (targets[k], k), v) for k, v in sorted(found.items())]
+    out = [('tuned-%s@%d' % (targets[k], k), v) for k, v in sorted(found.items())]
+    # the same oversize text mentioning _update60 (the compatibility suffix is compressed after it): still must be refused
+    for k, v in sorted(found.items()):
+        if k > area - 8:
+            out.append(('tuned-update60-%s' % targets[k], b'--_update60 ' + v[2:]))
+            break
+    return out
 
 
 def random_label(rnd, dirpath, k):
